@@ -431,6 +431,26 @@ def rule_b1(ctx, F):
         ("…whose suffix matches the header's", [(("suffix_matches(",), True)]),
         ("…at least as long as the best so far (the later line wins a tie)", [((" >= ",), True)]),
     ], accept_desc="choosing a divider")
+    # …and what is compared is the delimiter as parsed (dashes + suffix), not the raw line: the raw line carries its terminator,
+    # and the writer emits LF after its own dividers whatever the input's line endings are
+    cmp_ok, cmp_seen = True, 0
+    for b in fn.blocks.values():
+        c = fn.cond(b.id)
+        if c is None:
+            continue
+        d = rsrules.cond_def(fn, c)
+        if d.get("k") == "bin" and d.get("op") in (">=", "<=", "Ge", "Le") and ("best" in deep_text(fn, d, user=False)):
+            cmp_seen += 1
+            sides = [deep_text(fn, d["l"], user=True), deep_text(fn, d["r"], user=True)]
+            cand = [t for t in sides if "best" not in t.split("(")[0]] or sides
+            if not any("parse_delimiter_line(" in t for t in cand):
+                cmp_ok = False
+                ctx.bad("B1", "build_test_entry:tie-compares-parsed-delimiter", "the divider candidates are compared by `%s`, which is not the length of the parsed delimiter (dashes + suffix): a raw line length includes the "
+                        "line terminator, so a `---` line of the input ending in CRLF beats the writer's LF-terminated divider of the same length" % cand[0][:80], {"site": fn.loc((b.id, 0))})
+    if cmp_seen and cmp_ok:
+        ctx.ok("B1", "build_test_entry:tie-compares-parsed-delimiter", "the length compared against the best so far is computed from parse_delimiter_line's result (dashes and suffix, no terminator)")
+    elif not cmp_seen:
+        ctx.bad("B1", "build_test_entry:tie-compares-parsed-delimiter", "no `>=` comparison against the best divider length found in build_test_entry")
     # input before / output after
     idx = [(pt, x) for pt, e in fn.points() for x in own_walk(e) if x.get("k") == "call" and "Index" in (x.get("fn") or "") and x.get("a") and rsrules.trace_root(fn, x["a"][0]) == fn.params[0]["name"]]
     texts = [deep_text(fn, x["a"][1], user=True) for pt, x in idx]
